@@ -67,8 +67,11 @@ def rand_expr(rng, vars_, depth=2):
     return ("-", a, rand_expr(rng, vars_, depth - 1))
 
 
-def innermost(rng, mentioned, own):
+def innermost(rng, mentioned, own, independent=False):
     others = [v for v in mentioned if v != own]
+    if independent:
+        # the inner function ignores its own variable but uses enclosing (traced) ones: derivative is 0
+        return ("+", rand_expr(rng, others, 2) if others else S.C(0.7), ("*", S.C(2.0), S.V(others[0]) if others else S.C(1.0)))
     e = ("pow", S.V(own), 3)
     for o in others:
         e = ("*", e, S.V(o))
@@ -77,14 +80,14 @@ def innermost(rng, mentioned, own):
     return ("+", ("+", e, e2), ("*", S.V(own), extra))
 
 
-def build(rng, level, depth, ops, masks, template, vec_level=None, vecop=None):
+def build(rng, level, depth, ops, masks, template, vec_level=None, vecop=None, indep=False):
     own = "x%d" % level
     enclosing = ["x%d" % i for i in range(level)]
     mask = masks[level] if level < len(masks) else (1 << level) - 1
     mentioned = [v for i, v in enumerate(enclosing) if (mask >> i) & 1] + [own]
     if level == depth - 1:
-        return innermost(rng, mentioned, own)
-    inner_body = build(rng, level + 1, depth, ops, masks, template, vec_level, vecop)
+        return innermost(rng, mentioned, own, indep)
+    inner_body = build(rng, level + 1, depth, ops, masks, template, vec_level, vecop, indep)
     scope = enclosing + [own]
     nxt = "x%d" % (level + 1)
     if vec_level == level + 1:
@@ -123,6 +126,11 @@ def enumerate_specs(tier, seed):
     for _ in range(nv):
         d = int(rng.integers(2, 4))
         specs.append({"depth": d, "ops": [str(o) for o in rng.choice(OPNAMES, size=d)], "masks": [0] + [int(rng.integers(0, 1 << k)) for k in range(1, d)], "template": int(rng.integers(0, 3)), "vec_level": d - 1, "vecop": str(rng.choice(VECOPS))})
+    # inner functions that do not depend on their own variable (but on enclosing traced ones)
+    for d in (2, 3):
+        for ops in itertools.product(OPNAMES, repeat=d):
+            for t in range(3):
+                specs.append({"depth": d, "ops": list(ops), "masks": [0] + [(1 << k) - 1 for k in range(1, d)], "template": t, "indep": True})
     reps = 1 if tier == "quick" else 3
     out = []
     for r in range(reps):
@@ -135,10 +143,10 @@ def enumerate_specs(tier, seed):
 
 def run_spec(res, spec, ops, anp):
     rng = onp.random.Generator(onp.random.PCG64(spec["eseed"]))
-    body = build(rng, 0, spec["depth"], spec["ops"], spec["masks"], spec["template"], spec.get("vec_level"), spec.get("vecop"))
+    body = build(rng, 0, spec["depth"], spec["ops"], spec["masks"], spec["template"], spec.get("vec_level"), spec.get("vecop"), spec.get("indep", False))
     point = round(float(rng.uniform(0.3, 1.2)) * float(rng.choice([-1, 1])), 4)
     top = ("D", spec["ops"][0], "x0", body, S.C(point))
-    sig = {"engine": "nesting", "depth": spec["depth"], "ops": spec["ops"], "masks": spec["masks"], "template": spec["template"], "vec": [spec.get("vec_level"), spec.get("vecop")]}
+    sig = {"engine": "nesting", "depth": spec["depth"], "ops": spec["ops"], "masks": spec["masks"], "template": spec["template"], "vec": [spec.get("vec_level"), spec.get("vecop")], "indep": bool(spec.get("indep"))}
     case = {"spec": spec}
     res["evaluations"] += 1
     S.reset_memo()
@@ -194,7 +202,7 @@ def run_spec(res, spec, ops, anp):
             cur -= 1
     res["counters"]["max_trace_depth"] = max(res["counters"].get("max_trace_depth", 0), depth_seen)
     del PROBES.traces[ntr0:]
-    if ref == 0.0:
+    if ref == 0.0 and not spec.get("indep"):
         res["not_judged"]["trivial_zero"] = res["not_judged"].get("trivial_zero", 0) + 1
         return
     k = sig_key(sig)
